@@ -1157,3 +1157,141 @@ Proof.
   destruct (ctl_disconnect _) as [ok w2]. cbn [snd] in *. exists w2. repeat split; auto.
   destruct ok; auto.
 Qed.
+
+(* ================================================================== the TLS configuration is fixed *)
+Definition keeps (w w' : world) : Prop :=
+  c_tls (w_cfg w') = c_tls (w_cfg w) /\ c_resume (w_cfg w') = c_resume (w_cfg w).
+
+Lemma keeps_refl w : keeps w w.
+Proof. split; reflexivity. Qed.
+Lemma keeps_trans a b c : keeps a b -> keeps b c -> keeps a c.
+Proof. intros (A1 & A2) (B1 & B2). split; congruence. Qed.
+Lemma keeps_same a b : w_cfg b = w_cfg a -> keeps a b.
+Proof. intro H. unfold keeps. rewrite H. auto. Qed.
+
+Lemma keeps_do_send w line w' : do_send w line = Some w' -> keeps w w'.
+Proof.
+  unfold do_send. destruct (negb _); [discriminate|]. destruct (_ && _); [discriminate|].
+  destruct (w_peer_closed _); intro H; inversion H; subst; apply keeps_same; [reflexivity|].
+  unfold peer_react. destruct (w_cur _); reflexivity.
+Qed.
+
+Lemma keeps_close_data w : keeps w (close_data w).
+Proof.
+  apply keeps_same. unfold close_data. destruct (w_data w) as [d|]; [|reflexivity].
+  destruct (d_sock d), (d_acc d); reflexivity.
+Qed.
+
+Ltac ksame := apply keeps_same; reflexivity.
+
+Lemma run_keeps : forall p w, keeps w (snd (run p w)).
+Proof.
+  induction p as [v| |a k IH|verb arg k IH|line k IH|a k IH|k IH|e k IH|k IH|t k IH|k IH|k IH|h pt k IH|on k IH|k IH|k IH|k IH
+                 |k IH|ip port k IH|k IH|k IH|k IH|g k IH|k IH|k IH|k IH|k IH|body IH]; intro w; cbn [run].
+  - apply keeps_refl.
+  - apply keeps_refl.
+  - destruct (has_crlf a); [apply keeps_refl|apply IH].
+  - destruct arg as [a|].
+    + destruct (has_crlf a); [apply keeps_refl|].
+      destruct (do_send w _) as [w'|] eqn:E; cbn [snd]; [eapply keeps_trans; [eapply keeps_do_send; eauto|apply IH]|ksame].
+    + destruct (do_send w _) as [w'|] eqn:E; cbn [snd]; [eapply keeps_trans; [eapply keeps_do_send; eauto|apply IH]|ksame].
+  - destruct (do_send w _) as [w'|] eqn:E; cbn [snd]; [eapply keeps_trans; [eapply keeps_do_send; eauto|apply IH]|ksame].
+  - destruct (match a with AdvEprt => _ | AdvPort => _ end) as [line|]; [|apply keeps_refl].
+    destruct (do_send w _) as [w'|] eqn:E; cbn [snd]; [eapply keeps_trans; [eapply keeps_do_send; eauto|apply IH]|ksame].
+  - destruct (negb (w_open w)); [apply keeps_refl|].
+    destruct (w_backlog w) as [|[t [r|]] rest]; [destruct (w_peer_closed w); apply keeps_refl| |cbn [snd]; ksame].
+    destruct (code r =? 421).
+    + unfold ctl_disconnect. cbv zeta. destruct (negb _ || _); cbn [snd]; [eapply keeps_trans; [|apply IH]|]; ksame.
+    + eapply keeps_trans; [|apply IH]. ksame.
+  - eapply keeps_trans; [|apply IH]. ksame.
+  - apply IH.
+  - eapply keeps_trans; [|apply IH]. split; reflexivity.
+  - apply IH.
+  - apply IH.
+  - destruct (w_script _) as [|s rest]; cbn [snd]; [destruct (w_open w); ksame|].
+    destruct (negb (s_reachable s)); cbn [snd]; [destruct (w_open w); ksame|].
+    eapply keeps_trans; [|apply IH]. destruct (w_open w); ksame.
+  - eapply keeps_trans; [|apply IH]. ksame.
+  - destruct (_ && _); cbn [snd]; [eapply keeps_trans; [|apply IH]|]; ksame.
+  - destruct (_ && _); cbn [snd]; [eapply keeps_trans; [|apply IH]|]; ksame.
+  - unfold ctl_disconnect. cbv zeta. destruct (negb _ || _); cbn [snd]; [eapply keeps_trans; [|apply IH]|]; ksame.
+  - eapply keeps_trans; [|apply IH]. ksame.
+  - destruct (dp_reachable _); cbn [snd]; [eapply keeps_trans; [|apply IH]|]; ksame.
+  - eapply keeps_trans; [|apply IH]. ksame.
+  - destruct (dp_reachable _); cbn [snd]; [eapply keeps_trans; [|apply IH]; ksame|apply keeps_refl].
+  - destruct (dp_tls_ok _); cbn [snd]; [eapply keeps_trans; [|apply IH]|]; ksame.
+  - destruct (w_data w) as [d|]; [|apply IH].
+    destruct (_ && _); cbn [snd]; [ksame|].
+    eapply keeps_trans; [|apply IH]. eapply keeps_trans; [|apply keeps_close_data]. ksame.
+  - destruct (data_recv _ _ _ _ _) as [[ev r] cb']. destruct r; cbn [snd]; try (eapply keeps_trans; [|apply IH]); ksame.
+  - destruct (data_recv _ _ _ _ _) as [[ev r] cb']. destruct r; cbn [snd]; try (eapply keeps_trans; [|apply IH]); ksame.
+  - destruct (data_send _ _ _ _) as [[ev r] cb']. destruct r; cbn [snd]; try (eapply keeps_trans; [|apply IH]); ksame.
+  - destruct (io_cb (w_io w)) as [answers|]; [|apply IH].
+    destruct (poll answers) as [a answers']. eapply keeps_trans; [|apply IH]. ksame.
+  - destruct (run body w) as [o w1] eqn:R. cbn [snd].
+    pose proof (IH w) as X. rewrite R in X. cbn [snd] in X.
+    eapply keeps_trans; [exact X|]. eapply keeps_trans; [apply keeps_close_data|ksame].
+Qed.
+
+Theorem step_keeps_tls_config a w : keeps w (snd (step w a)).
+Proof.
+  destruct a; unfold step; try (eapply keeps_trans; [|apply run_keeps]; ksame); split; reflexivity.
+Qed.
+
+(* ================================================================== TLS gating of the control channel *)
+(* a command written while the TLS layer is up is written inside TLS; between "switch to the TLS socket" and the
+   completed handshake nothing can be written at all *)
+Lemma peer_react_trace w : w_trace (peer_react w) = w_trace w.
+Proof. unfold peer_react. destruct (w_cur w); reflexivity. Qed.
+
+Theorem send_is_secured_iff_tls_up w line w' : do_send w line = Some w' ->
+  (w_ssl w = true -> w_tls_up w = true) /\
+  (w_peer_closed w = false ->
+   w_trace w' = w_trace w ++ block (w_obs w) (ORequest line) ++ [EWire (w_ssl w && w_tls_up w) (w_ord w) line]).
+Proof.
+  unfold do_send.
+  change (w_open (notify w (ORequest line))) with (w_open w).
+  change (w_ssl (notify w (ORequest line))) with (w_ssl w).
+  change (w_tls_up (notify w (ORequest line))) with (w_tls_up w).
+  change (w_peer_closed (notify w (ORequest line))) with (w_peer_closed w).
+  change (w_ord (notify w (ORequest line))) with (w_ord w).
+  destruct (negb (w_open w)); [discriminate|].
+  destruct (w_ssl w) eqn:S, (w_tls_up w) eqn:U; cbn [andb negb]; try discriminate; intro H;
+    (split; [auto|]); intro Hp; rewrite Hp in H; inversion H; subst;
+    rewrite peer_react_trace; cbn [w_trace emit set_trace notify]; unfold block; rewrite <- ?app_assoc; reflexivity.
+Qed.
+
+(* the control handshake: on success the TLS layer is up with a fresh session; on failure the call ends in
+   ftp_exception and the continuation (the login) is never run *)
+Theorem ctl_handshake_cases k w :
+  (w_last_tls_ok w && negb (w_peer_closed w) = true ->
+     exists w1, run (CtlHandshake k) w = run k w1 /\ w_tls_up w1 = true /\ w_ssl w1 = w_ssl w /\
+                w_sess_id w1 = w_next_sess w /\ w_next_sess w1 = S (w_next_sess w) /\
+                w_trace w1 = w_trace w ++ [ECtl (CHandshake true (w_next_sess w))]) /\
+  (w_last_tls_ok w && negb (w_peer_closed w) = false ->
+     run (CtlHandshake k) w = (OThrow, emit w [ECtl (CHandshake false O)])).
+Proof.
+  split; intro H; cbn [run]; rewrite H; [|reflexivity].
+  eexists. split; [reflexivity|]. cbn. repeat split; reflexivity.
+Qed.
+
+(* the data handshake offers the control connection's current session exactly when resumption is configured *)
+Theorem data_handshake_offer k w :
+  let offered := if c_resume (w_cfg w) then Some (w_sess_id w) else None in
+  (dp_tls_ok (w_plan w) = true ->
+     exists w1, run (DHandshakeP k) w = run k w1 /\ w_trace w1 = w_trace w ++ [EData (DHandshake offered true)] /\
+                w_sess_id w1 = w_sess_id w /\ w_cfg w1 = w_cfg w) /\
+  (dp_tls_ok (w_plan w) = false ->
+     exists w1, run (DHandshakeP k) w = (OThrow, w1) /\ w_trace w1 = w_trace w ++ [EData (DHandshake offered false)]).
+Proof.
+  cbv zeta. split; intro H; cbn [run]; rewrite H; eexists; (split; [reflexivity|]); cbn; repeat split; reflexivity.
+Qed.
+
+(* a command/reply exchange leaves the TLS state of the control connection alone *)
+Lemma after_command_tls w line x r rest : w_cur w = r :: rest ->
+  w_sess_id (after_command w line x) = w_sess_id w /\ w_ssl (after_command w line x) = w_ssl w /\
+  w_tls_up (after_command w line x) = w_tls_up w /\ w_next_sess (after_command w line x) = w_next_sess w.
+Proof.
+  intro Hc. destruct w as [f1 f2 f3 f4 f5 f6 f7 f8 f9 f10 f11 f12 f13 f14 f15 f16 f17 f18 f19 f20]. cbn in Hc. subst.
+  unfold after_command, peer_react. cbn. repeat split; reflexivity.
+Qed.
